@@ -26,6 +26,9 @@ CHECKS = {
     "C06": dict(level="other", engine="fwsym", technique="CrossHair (z3) on the real string-literal escaper + clang front-end acceptance of every enumerated skeleton",
                 text="compiler-front-end acceptance of the C++ emitted for every accepted skeleton of every family (the mandatory first stage of all firmware checks) plus a CrossHair/z3 lemma on string escaping; only the lemma is solver-quantified",
                 note="front end: clang++-14 against mock headers declaring the documented Arduino surface only; real AVR toolchain outside the claim; escaping lemma for printable strings up to the stated length"),
+    "C07": dict(level="other", engine="pysym", technique="symbolic indentation/kind vectors through the real block collectors (pysym), z3 regular-expression inclusion on the live header patterns, CrossHair on _strip_inline_comment; layout metamorphic cross-check through the real pipeline",
+                text="bounded symbolic check that the block extent computed by the real collectors is Python's for every indentation/comment/blank arrangement within the bound, that header recognisers accept every spelling of the spec language, and that comment stripping matches a reference scanner; plus byte-identity of the firmware under 13 re-layouts of every skeleton",
+                note="block lines <= 3 (quick) / 4; regex subset translator; the layout part is concrete per variant and the ignored-line audit uses the REDUINO_VERIF hook"),
     "C09": dict(level=TV, engine="fwsym+pysym", technique="symbolic execution of the emitted C++ (IR) with memory/UB monitors under the CPython path condition; heap sampled per pass; ASan/UBSan replay",
                 text="bounded symbolic memory-safety and leak checking of list/str skeletons over N passes, indices constrained by the CPython run to be IndexError-free",
                 note="trusted: fwsym memory model (validated by ASan/UBSan replay), mock String keeps characters inline (core String heap traffic outside the claim)"),
